@@ -209,7 +209,7 @@ func (x *Exec) callByContract(st *State, fr *Frame, callee *ssa.Function, fc *Fu
 		}
 	}
 	for _, bi := range invs {
-		if bi.inv.History {
+		if bi.inv.History || bi.inv.Owned {
 			continue
 		}
 		g := x.evalBool(env.with(bi.Binder, bi.val), bi.inv.Expr)
@@ -440,6 +440,9 @@ func (x *Exec) havocModItem(st *State, env *Env, m ModItem, classes map[string]b
 				nv := &Value{T: fv, Typ: stt.Field(i).Type()}
 				x.assumeTypeInv(st, nv)
 				x.assumeAllocated(st, nv)
+				if _, isSl := stt.Field(i).Type().Underlying().(*types.Slice); isSl {
+					st.assume(eq(app("s_off", fv), "0"))
+				}
 				x.havocContentsFramed(st, stt.Field(i).Type(), oldv)
 				return
 			}
